@@ -14,7 +14,9 @@ def pytest_configure(config):
     for pid in os.environ.get("VF_PROPS", "C01").split(","):
         mod = importlib.import_module(f"vf.props.{pid.lower()}")
         ctx = core.Ctx(pid, "quick", 0, shard="repo-tests")
+        cwd = os.getcwd()
         mod.setup(ctx)
+        os.chdir(cwd)  # some property modules move to a scratch directory; the repository's tests use relative paths
         STATE.append((pid, mod, ctx))
 
 
